@@ -21,7 +21,7 @@ theorem invM0_step (c : Cfg) {s s' : State} {l : Label} (hD : InvD c s) (h : Inv
   cases l <;> simp only [step] at st <;> (repeat' split at st) <;>
     (first | (simp at st; done) | skip) <;>
     simp only [Option.some.injEq] at st <;> subst st <;>
-    simp only [upd, lockS, unlockS, newHelper] <;>
+    simp only [upd, lockS, unlockS, newHelper, nestOn, csOn, nestOff] <;>
     grind [TPc.holds, TPc.extMode, K.holds, K.isExt, cont_holds', cont_extMode]
 
 theorem invM0_reach (c : Cfg) {s : State} (h : Reach c s) : InvM0 s := by
@@ -37,7 +37,7 @@ theorem base_ext_holder (c : Cfg) {s s' : State} {l : Label} (hl : l.isHook = fa
   cases l <;> simp only [Label.isHook, reduceCtorEq] at hl <;> simp only [step] at st <;> (repeat' split at st) <;>
     (first | (simp at st; done) | skip) <;>
     simp only [Option.some.injEq] at st <;> subst st <;>
-    simp only [upd, lockS, unlockS, newHelper] at hm he <;>
+    simp only [upd, lockS, unlockS, newHelper, nestOn, csOn, nestOff] at hm he <;>
     grind [TPc.holds, TPc.extMode, K.holds, K.isExt, cont_holds', cont_extMode]
 
 /-- Barrier level: an outer-layer thread that owns `call_rcu_mutex` is inside the locked part of `rcu_barrier()` -/
